@@ -120,6 +120,15 @@ def run(ctx):
                     return leaves(v.body) + leaves(v.orelse)
                 return [v]
             ok = all(isinstance(x, ast.Call) for v in locals_assigned[a.id] for x in leaves(v))
+            # the ids come as a one-shot iterator: the equalizer must be its only reader (a log line that joins / counts it first leaves
+            # nothing to replay)
+            if name == 0:
+                reads = [x for x in walk_own(pc.node) if isinstance(x, ast.Name) and x.id == a.id and isinstance(x.ctx, ast.Load)]
+                if len(reads) != 1:
+                    ok = False
+                    other = [x for x in reads if x is not a]
+                    why = 'the id iterator `%s` is read %d times (line %s): whatever consumes it before the equalizer leaves nothing to replay' % (
+                        a.id, len(reads), ', '.join(str(x.lineno) for x in other))
         elif self_attr(a) is not None:
             f = self_attr(a)
             m = st.lookup(f)
